@@ -19,7 +19,7 @@ impl E2Part for Structs {
     }
     fn cases(&self, tier: Tier) -> usize {
         match tier {
-            Tier::Quick => 2_400,
+            Tier::Quick => 4_800,
             Tier::Thorough => 48_000,
         }
     }
